@@ -230,11 +230,12 @@ class Checker:
 
     def guard_only(self, rule: str, node, allowed: Sequence,
                    f: Optional[Func] = None, what: str = '',
-                   stop=None) -> bool:
+                   stop=None, composite_extra: Sequence = ()) -> bool:
         """Every path condition of node is one of `allowed` (the effect must
         not be *more* restricted than stated: used for must-include sites).
         With `stop` (an enclosing statement) only conditions inside it are
-        considered."""
+        considered.  `composite_extra` atoms are accepted only as leaves of
+        and/or facts (either polarity), never as a top-level restriction."""
         f = f or self.owner(node)
         fs = self.facts(node, expand=False, stop=stop)
         env = self.env(node)
@@ -247,10 +248,12 @@ class Checker:
                     yield from leaves(m)
         for fact in fs:
             for leaf in leaves(fact):
-                if not any(R(a).implied_by(leaf, env) for a in allowed) \
+                al = list(allowed) + (
+                    list(composite_extra) if fact[0] != 'atom' else [])
+                if not any(R(a).implied_by(leaf, env) for a in al) \
                         and not (fact[0] != 'atom' and any(
                             R(a).implied_by((leaf[0], leaf[1], not leaf[2]),
-                                            env) for a in allowed)):
+                                            env) for a in al)):
                     bad.append(show_fact(fact))
                     break
         return self.ob(rule, self.key(node, f) + ' only-under ' + ', '.join(
